@@ -7,6 +7,7 @@ import ast
 import z3
 
 from .values import (
+    KDict,
     is_enum, enum_eq, enum_less,
     Sym, Struct, PList, PDict, PSet, Inst, SymSeq, SymSet, SymMap, FuncRef,
     ClassRef, ExtRef, BoundMethod, LambdaVal, PyFunc, Unsupported, term, wrap,
@@ -304,6 +305,8 @@ class Interp:
             return len(v.items) > 0
         if isinstance(v, PDict):
             return len(v.d) > 0
+        if isinstance(v, KDict):
+            return len(v.pairs) > 0
         if isinstance(v, PSet):
             return len(v.items) > 0
         if isinstance(v, SymSeq):
@@ -442,6 +445,8 @@ class Interp:
             return zor(*[self.values_eq(x, e) for e in items])
         if isinstance(container, PSet):
             return zor(*[self.values_eq(x, e) for e in container.items])
+        if isinstance(container, KDict):
+            return zor(*[self.values_eq(x, k) for k, _ in container.pairs])
         if isinstance(container, PDict):
             if not isinstance(x, Sym):
                 try:
@@ -510,6 +515,14 @@ class Interp:
         return out
 
     def e_Dict(self, node, frame):
+        if node.keys and all(k is not None for k in node.keys):
+            keys = [self.eval(k, frame) for k in node.keys]
+            if any(isinstance(k, Sym) and k.schema for k in keys):
+                from .builtins import kd_set
+                d = KDict()
+                for k, v in zip(keys, node.values):
+                    kd_set(self, d, k, self.eval(v, frame))
+                return d
         d = PDict()
         for k, v in zip(node.keys, node.values):
             if k is None:
@@ -762,12 +775,17 @@ class Interp:
         hook = self._comp_model(node, frame)
         if hook is not None:
             return hook
+        items = []
+        self._comp(node, frame, lambda fr: items.append((self.eval(node.key, fr), self.eval(node.value, fr))))
+        if any(isinstance(k, Sym) and k.schema for k, _ in items):
+            from .builtins import kd_set
+            kd = KDict()
+            for k, v in items:
+                kd_set(self, kd, k, v)
+            return kd
         d = PDict()
-
-        def emit(fr):
-            k = self.hashable(self.eval(node.key, fr))
-            d.d[k] = self.eval(node.value, fr)
-        self._comp(node, frame, emit)
+        for k, v in items:
+            d.d[self.hashable(k)] = v
         return d
 
     def _comp_model(self, node, frame):
@@ -816,6 +834,8 @@ class Interp:
             return list(v.items)
         if isinstance(v, PDict):
             return list(v.d.keys())
+        if isinstance(v, KDict):
+            return [k for k, _ in v.pairs]
         if isinstance(v, str):
             return list(v)
         if isinstance(v, range):
